@@ -345,6 +345,27 @@ fn stuffing_vec(rng: &mut Rng, n: usize, pct: u64) -> Vec<u8> {
     (0..n).map(|_| if pct > 0 && rng.below(100) < pct { 1 + rng.below(2) as u8 } else { 0 }).collect()
 }
 
+/// Give the macroblock sequence a regular structure now and then: exact repetition with a short,
+/// odd period (2, 3, 5 or 7 macroblocks - not the picture's row length), or a palindrome.
+fn structure(rng: &mut Rng, mbs: &mut [SymMb]) {
+    let n = mbs.len();
+    if n < 4 || !rng.chance(1, 8) {
+        return;
+    }
+    if rng.chance(1, 4) {
+        for i in 0..n / 2 {
+            mbs[n - 1 - i] = mbs[i].clone();
+        }
+    } else {
+        let p = *rng.pick(&[2usize, 3, 5, 7]);
+        if p < n {
+            for i in p..n {
+                mbs[i] = mbs[i % p].clone();
+            }
+        }
+    }
+}
+
 /// A valid intra picture.
 pub fn gen_intra(rng: &mut Rng, cfg: &PicCfg) -> SymPicture {
     let hdr = make_header(cfg, 0, rng);
@@ -378,6 +399,7 @@ pub fn gen_intra(rng: &mut Rng, cfg: &PicCfg) -> SymPicture {
         });
         mbs.push(SymMb::Coded { kind, dquant: gen_dquant(rng, bias), mvd: [[0; 2]; 4], blocks });
     }
+    structure(rng, &mut mbs);
     let stuffing = stuffing_vec(rng, mbs.len(), cfg.stuffing_pct);
     SymPicture { hdr, w: cfg.w, h: cfg.h, mbs, stuffing }
 }
@@ -489,6 +511,7 @@ pub fn gen_inter(rng: &mut Rng, cfg: &PicCfg, ic: &InterCfg) -> SymPicture {
     if let Some(t) = ic.truncate {
         mbs.truncate(t.min(mbw * mbh));
     }
+    structure(rng, &mut mbs);
     let stuffing = stuffing_vec(rng, mbs.len(), cfg.stuffing_pct);
     SymPicture { hdr, w: cfg.w, h: cfg.h, mbs, stuffing }
 }
